@@ -315,6 +315,7 @@ def run(ctx: Ctx):
     _drained_accumulators(ctx)
     _format_constants_and_order(ctx)
     _boundary_cases_of_the_timed_writers(ctx)
+    _round_trip_tables(ctx)
     plumbing(ctx, "S1")
     return dict(
         explanation=(
@@ -507,6 +508,68 @@ def _format_constants_and_order(ctx: Ctx):
            fixed[0].lineno if fixed else wt.line, sample=dict(follows=follows, fixed=len(fixed)))
 
 
+def _boundary_cases_by_value(ctx: Ctx) -> bool:
+    """S8 by value (sa/pyinterp.py): write_ctm is interpreted for one-token transcripts - the three legal boundary tokens must be written
+    (one line each), the three ill-formed ones refused with ValueError; write_textgrid is interpreted without `point_tier` for a tier of
+    proper intervals with one zero-length marker (an IntervalTier: every entry keeps its end), for a tier of markers only (a TextTier)
+    and for intervals shorter than the print precision (a TextTier at that precision). False when outside the interpreted fragment."""
+    from sa.inteval import NotEvaluable
+    col, pkg = ctx.col, ctx.pkg
+    rel = pkg.module(MOD).relname
+    funcs, interp, written, lines_of = _io_tools(pkg)
+    wc, wt = funcs.get("write_ctm"), funcs.get("write_textgrid")
+    if wc is None or wt is None:
+        return False
+    bad = None
+    try:
+        for tok, legal in ((("a", 0.0, 0.0), True), (("a", 1.5, 1.5), True), (("a", 0.0, 2.0), True), (("a", -1.0, 2.0), False), (("a", 1.0, -1.0), False),
+                           (("a", 3.0, 2.0), False)):
+            text, err = written(wc, {wc.args.args[0].arg: [("u", [tok])]})
+            ok = (err is None and len(lines_of(text)) == 1) if legal else (err is not None and "ValueError" in err)
+            if not ok and bad is None:
+                bad = (tok, err is not None, err or text)
+        cases = (("intervals and one marker", [("a", 0.0, 1.0), ("m", 1.0, 1.0), ("b", 1.0, 2.5)], 3, "IntervalTier"),
+                 ("markers only", [("m", 0.5, 0.5), ("n", 2.0, 2.0)], 3, "TextTier"),
+                 ("intervals below the print precision", [("a", 0.0, 0.0004), ("b", 1.0, 1.0004)], 3, "TextTier"),
+                 ("the same intervals at a finer precision", [("a", 0.0, 0.0004), ("b", 1.0, 1.0004)], 4, "IntervalTier"))
+        tg_bad = None
+        names = [a.arg for a in wt.args.args]
+        for tag, tr, prec, want in cases:
+            args = {names[0]: tr}
+            pn = next((n_ for n_ in names if "prec" in n_), None)
+            if pn is None:
+                raise NotEvaluable("write_textgrid has no precision formal")
+            args[pn] = prec
+            ptn = next((n_ for n_ in names if "point" in n_), None)
+            if ptn is not None:
+                args[ptn] = None
+            text, err = written(wt, args)
+            got = None
+            if err is None:
+                kinds = [k for k in ("IntervalTier", "TextTier") if f'"{k}"' in text]
+                got = kinds[0] if len(kinds) == 1 else str(kinds)
+                if got == "IntervalTier":
+                    # every entry is written with both of its times
+                    body = text.split("\n")
+                    ends_ok = all(f"{e_:0.{prec}f}" in body for _, _, e_ in tr)
+                    if not ends_ok:
+                        got = "IntervalTier without the end times"
+            if got != want and tg_bad is None:
+                tg_bad = (tag, tr, prec, err or got, want)
+    except NotEvaluable:
+        return False
+    col.count("ctm_token_checks", 6)
+    col.count("point_tier_inferences", len(cases))
+    col.ob("G12", "S8", f"{rel}::write_ctm::non-negative-times-and-durations-are-written", bad is None,
+           (f"the token {bad[0]} is {'refused' if bad[1] else 'accepted'} by write_ctm ({str(bad[2])[:60]!r}); ctm start times and durations are non-negative reals, zero "
+            f"included: a zero-duration token at time 0 cannot be written (or an ill-formed one is)") if bad else "", rel, wc.lineno)
+    col.ob("G13", "S8", f"{rel}::write_textgrid::point-tier-inferred-from-all-entries", tg_bad is None,
+           (f"write_textgrid without point_tier on {tg_bad[0]} {tg_bad[1]} at precision {tg_bad[2]} writes {tg_bad[3]}, expected a {tg_bad[4]}: a tier is "
+            f"a point tier iff ALL its entries print the same start and end - inferred from any one of them, a single zero-length entry among proper "
+            f"intervals drops every interval's end time") if tg_bad else "", rel, wt.lineno)
+    return True
+
+
 def _boundary_cases_of_the_timed_writers(ctx: Ctx):
     """S8: (a) ctm: start times and durations are NON-NEGATIVE - a token at time 0 of duration 0 (an utterance-initial marker) is
     expressible and must be written. Every refusal in write_ctm's per-token checks is evaluated (sa/inteval.py) for the token
@@ -517,6 +580,8 @@ def _boundary_cases_of_the_timed_writers(ctx: Ctx):
     col, pkg = ctx.col, ctx.pkg
     rel = pkg.module(MOD).relname
     wc = pkg.func(f"{MOD}::write_ctm")
+    if _boundary_cases_by_value(ctx):
+        return
     loops = [n for n in own_nodes(wc.node) if isinstance(n, ast.For) and isinstance(n.target, ast.Name)]
     checks = []
     for lp in loops:
@@ -575,6 +640,124 @@ def _boundary_cases_of_the_timed_writers(ctx: Ctx):
            (f"`{u(wrong[0])[:80]}` infers a point tier unless it is a universal statement over the entries: a single zero-length entry among proper "
             f"intervals makes the whole tier a TextTier and every interval's end time is dropped on writing") if wrong else "", rel,
            wrong[0].lineno if wrong else wt.line)
+
+
+def _io_tools(pkg):
+    """Interpretation of the readers / writers (sa/pyinterp.py): (functions of the module, a fresh interpreter, `written(fn, args)` = the
+    text a writer puts into a modelled open file | an error, `lines_of(text)`)."""
+    from sa.pyinterp import PyInterp, Obj
+    mod = pkg.module(MOD)
+    funcs = {st.name: st for st in mod.tree.body if isinstance(st, ast.FunctionDef)}
+    classes = {st.name: st for st in mod.tree.body if isinstance(st, ast.ClassDef)}
+
+    def interp():
+        holder = {}
+
+        def lookup(c):
+            return funcs.get(c.func.id) if isinstance(c.func, ast.Name) else None
+
+        def leaf(e, env):
+            if isinstance(e, ast.Call):
+                cn = call_name(e)
+                if cn == "warnings.warn":
+                    return "warned"
+                if cn.split(".")[-1] == "OrderedDict" and not e.args:
+                    return {}
+                if cn in ("np.isreal", "numpy.isreal") and len(e.args) == 1:
+                    v = holder["it"].eval(e.args[0], env)
+                    return ("real",) if isinstance(v, (int, float)) and not isinstance(v, bool) else ()
+            return None
+        it = PyInterp(leaf=leaf, lookup=lookup, classes=classes)
+        holder["it"] = it
+        return it
+
+    def written(fn, args):
+        buf = []
+        env = dict(args)
+        env[[a.arg for a in fn.args.args][1]] = Obj(write=buf.append)
+        for a_, d_ in zip(reversed(fn.args.args), reversed(fn.args.defaults)):
+            if a_.arg not in env:
+                env[a_.arg] = d_.value if isinstance(d_, ast.Constant) else _folded_default(pkg, d_)
+        kind, val = interp().run(fn, env)
+        if kind != "return":
+            return None, f"raises {val}"
+        return "".join(buf), None
+
+    def lines_of(text):
+        out = text.split("\n")
+        return [l + "\n" for l in out[:-1]] + ([out[-1]] if out[-1] else [])
+    return funcs, interp, written, lines_of
+
+
+def _folded_default(pkg, d):
+    """A default written as `config.NAME`: the constant folded from its definition."""
+    from sa.constfold import fold_constant
+    from sa.inteval import NotEvaluable
+    if isinstance(d, ast.Attribute) and isinstance(d.value, ast.Name) and d.value.id == "config":
+        return fold_constant(pkg.module("config").tree, d.attr)
+    raise NotEvaluable(f"default `{u(d)[:40]}`")
+
+
+def _round_trip_tables(ctx: Ctx):
+    """S12 by value: the writers and readers of the trn and ctm formats are interpreted (sa/pyinterp.py: plain strings, lists,
+    dictionaries, the `_AltTree` class, generators; nothing is run) and chained - what `write_*` puts into a (modelled) open file is
+    split into lines and handed to `read_*`:
+
+      trn   tokens, timed tokens (the times are dropped), alternates nested to depth 2, an empty transcript, an utterance id with a
+            space: read(write(T)) == T with the times removed and every top-level alternate as (branches, -1, -1)
+      ctm   several utterances with unsorted tokens, a channel string and a waveform / channel map: read(write(T)) gives every
+            utterance once, its tokens ordered by start time, start and end times as written (end = start + duration)
+
+    A clause outside the interpreted fragment is skipped (the structural clauses above stand alone)."""
+    from sa.inteval import NotEvaluable
+    col, pkg = ctx.col, ctx.pkg
+    rel = pkg.module(MOD).relname
+    funcs, interp, written, lines_of = _io_tools(pkg)
+
+    # ---- trn
+    wt, rt = funcs.get("write_trn"), funcs.get("read_trn_iter")
+    if wt is None or rt is None:
+        raise AnalysisError("C11: write_trn / read_trn_iter not found")
+    trs = [("u1", ["hello", "world"]), ("u 2", [("a", 0.5, 1.0), "b"]), ("u3", ["x", ([["y"], ["z", "w"]], -1, -1), "v"]),
+           ("u4", [([["p", [["q"], ["r"]]], ["s"]], -1, -1)]), ("u5", []), ("u6", [("c", 1, 2), ([["d"], ["e"]], -1, -1)])]
+    want = [("u1", ["hello", "world"]), ("u 2", ["a", "b"]), ("u3", ["x", ([["y"], ["z", "w"]], -1, -1), "v"]),
+            ("u4", [([["p", [["q"], ["r"]]], ["s"]], -1, -1)]), ("u5", []), ("u6", ["c", ([["d"], ["e"]], -1, -1)])]
+    try:
+        text, err = written(wt, {wt.args.args[0].arg: trs})
+        got = None
+        if err is None:
+            names = [a.arg for a in rt.args.args]
+            kind, got = interp().run(rt, dict(zip(names, (lines_of(text), False, 0, 1000))))
+            if kind != "return":
+                err, got = f"read_trn_iter raises {got}", None
+        col.count("trn_round_trip_utterances", len(trs))
+        col.ob("G12", "S12", f"{rel}::write_trn->read_trn_iter::round-trip-table", err is None and got == want,
+               f"writing {trs} and reading the result back gives {err or got}; expected {want} (times dropped, alternates kept, ids and order "
+               f"as written); the file was {text!r}", rel, wt.lineno, sample=dict(utterances=len(trs)))
+    except NotEvaluable:
+        pass
+    # ---- ctm
+    wc, rc = funcs.get("write_ctm"), funcs.get("read_ctm")
+    if wc is None or rc is None:
+        raise AnalysisError("C11: write_ctm / read_ctm not found")
+    tc = [("uB", [("x", 1.5, 2.0), ("w", 0.0, 0.5), ("y", 2.0, 2.0)]), ("uA", [("k", 0.25, 1.0)]), ("uC", [("m", 3.0, 3.5), ("l", 0.5, 3.0)])]
+    for tag, utt2wc, wc2utt in (("channel", "A", None), ("map", {"uA": ("f2", "1"), "uB": ("f1", "2"), "uC": ("f1", "1")},
+                                                         {("f2", "1"): "uA", ("f1", "2"): "uB", ("f1", "1"): "uC"})):
+        try:
+            text, err = written(wc, {wc.args.args[0].arg: tc, wc.args.args[2].arg: utt2wc})
+            got = None
+            if err is None:
+                kind, got = interp().run(rc, {rc.args.args[0].arg: lines_of(text), rc.args.args[1].arg: wc2utt})
+                if kind != "return":
+                    err, got = f"read_ctm raises {got}", None
+            ok = err is None and isinstance(got, list) and sorted(u_ for u_, _ in got) == sorted(u_ for u_, _ in tc) \
+                and all(len(t_) == len(dict(tc)[u_]) and all(g_[0] == w_[0] and abs(g_[1] - w_[1]) < 1e-9 and abs(g_[2] - w_[2]) < 1e-9
+                                                         for g_, w_ in zip(t_, sorted(dict(tc)[u_], key=lambda z: z[1]))) for u_, t_ in got)
+            col.ob("G12", "S12", f"{rel}::write_ctm->read_ctm::round-trip-table[{tag}]", ok,
+                   f"writing {tc} with utt2wc={utt2wc!r} and reading the result back (wc2utt={wc2utt!r}) gives {err or got}; expected every utterance "
+                   f"once with its tokens ordered by start time and the times as written; the file was {text!r}", rel, wc.lineno, sample=dict(utterances=len(tc)))
+        except NotEvaluable:
+            pass
 
 
 def _mutants():
